@@ -30,57 +30,62 @@ def check(pid, tier, args):
     with open(cases, "w") as o:
         for c in r.printed:
             o.write(json.dumps(c) + "\n")
-    out = os.path.join(sc, "c10")
-    os.makedirs(out, exist_ok=True)
-    cmd = [drive, "imagexform", "-cases", cases, "-out", out, "-tier", tier, "-seed", str(vlib.seed())]
-    p = vlib.run(cmd, timeout=3000, check=False)
-    if p.returncode != 0:
-        # a panic inside one of the library's worker goroutines cannot be recovered by the
-        # caller: the process dies.  That death is an observation of the real code; find
-        # the configuration by re-running single-threaded with a marker before each run.
-        if "goroutine" not in p.stderr or "mandykoh" not in p.stderr:
-            raise vlib.Infra("imagexform driver failed: %s" % p.stderr[-1500:])
-        marker = os.path.join(sc, "xform_marker.ndjson")
-        p2 = vlib.run(cmd + ["-serial", marker], timeout=6000, check=False)
-        if p2.returncode == 0:
-            raise vlib.Infra("driver crash did not reproduce single-threaded: %s" % p.stderr[-1500:])
-        last = json.loads(open(marker).read().strip().splitlines()[-1])
-        first_line = [l for l in p2.stderr.splitlines() if l.startswith("panic:") or l.startswith("fatal error:")][:1]
-        run.violation({"finding_key": None, "crashing_run": last, "stderr": p2.stderr[:1500]},
-                      "process died (%s) in %s %s->%s parallelism %d on cfg %s" % (
-                          first_line[0] if first_line else "crash", last["xform"], last["src"], last["dst"], last["par"],
-                          json.dumps(last["cfg"])))
-        run.cov["traces_validated_against_impl"] = 0
-        run.sample(last)
-        return run.finish()
-    stats = json.loads(p.stdout.strip().splitlines()[-1])
-    # 3a. binding G: real transforms, every byte against the specification's map
-    nbad = 0
-    for l in open(os.path.join(out, "c10_g.ndjson")):
-        if '"ok":false' in l:
-            ev = json.loads(l)
-            nbad += 1
-            if len(run.violations) < 10:
-                run.violation({"finding_key": None, "replay_case": ev},
-                              "%s %s->%s parallelism %d on cfg %s: %s" % (ev["xform"], ev["src"], ev["dst"], ev["par"],
-                                                                          json.dumps(ev["cfg"]), ev["why"]))
-    run.cov["replayed_transforms"] = stats["replays"]
-    # 3b. binding T: observed write maps judged by the contract
-    results, rejects, lines = vlib.validate_trace("TraceImageXform", "TraceImageXform.cfg",
-                                                  os.path.join(out, "c10.ndjson"), shards=8, heap="3g")
-    for res in results:
-        run.add_tlc("TraceImageXform", res)
-    run.cov["traces_validated_against_impl"] = len(lines)
-    run.cov["configurations"] = len(r.printed)
-    run.cov["exhaustive"] = False
-    run.sample(json.loads(lines[len(lines) // 3]))
-    for n, pr in rejects[:10]:
-        ev = json.loads(lines[n])
-        run.violation({"finding_key": None, "event": ev},
-                      "TransformImageColor %s->%s parallelism %d wrote %s for cfg %s" % (
-                          ev["src"], ev["dst"], ev["par"], json.dumps(ev["observed"])[:200], json.dumps(ev["cfg"])))
+    # the library's worker pool under the default GOMAXPROCS and under a small one (requested
+    # parallelism larger than the processors available): the write map may depend on neither
+    passes = [("", None), ("-P2", "2")] if tier == "quick" else [("", None), ("-P2", "2"), ("-P1", "1"), ("-P5", "5")]
+    for tag, procs in passes:
+        env = dict(vlib.goenv(), GOMAXPROCS=procs) if procs else None
+        out = os.path.join(sc, "c10" + tag)
+        os.makedirs(out, exist_ok=True)
+        cmd = [drive, "imagexform", "-cases", cases, "-out", out, "-tier", tier, "-seed", str(vlib.seed())]
+        p = vlib.run(cmd, timeout=3000, check=False, env=env)
+        if p.returncode != 0:
+            # a panic inside one of the library's worker goroutines cannot be recovered by the
+            # caller: the process dies.  That death is an observation of the real code; find
+            # the configuration by re-running single-threaded with a marker before each run.
+            if "goroutine" not in p.stderr or "mandykoh" not in p.stderr:
+                raise vlib.Infra("imagexform driver failed: %s" % p.stderr[-1500:])
+            marker = os.path.join(sc, "xform_marker.ndjson")
+            p2 = vlib.run(cmd + ["-serial", marker], timeout=6000, check=False, env=env)
+            if p2.returncode == 0:
+                raise vlib.Infra("driver crash did not reproduce single-threaded: %s" % p.stderr[-1500:])
+            last = json.loads(open(marker).read().strip().splitlines()[-1])
+            first_line = [l for l in p2.stderr.splitlines() if l.startswith("panic:") or l.startswith("fatal error:")][:1]
+            run.violation({"finding_key": None, "crashing_run": last, "stderr": p2.stderr[:1500]},
+                          "process died (%s) in %s %s->%s parallelism %d on cfg %s (GOMAXPROCS %s)" % (
+                              first_line[0] if first_line else "crash", last["xform"], last["src"], last["dst"], last["par"],
+                              json.dumps(last["cfg"]), procs or "default"))
+            run.cov["traces_validated_against_impl"] = 0
+            run.sample(last)
+            return run.finish()
+        stats = json.loads(p.stdout.strip().splitlines()[-1])
+        # 3a. binding G: real transforms, every byte against the specification's map
+        nbad = 0
+        for l in open(os.path.join(out, "c10_g.ndjson")):
+            if '"ok":false' in l:
+                ev = json.loads(l)
+                nbad += 1
+                if len(run.violations) < 10:
+                    run.violation({"finding_key": None, "replay_case": ev},
+                                  "%s %s->%s parallelism %d on cfg %s: %s" % (ev["xform"], ev["src"], ev["dst"], ev["par"],
+                                                                              json.dumps(ev["cfg"]), ev["why"] + (" (GOMAXPROCS %s)" % procs if procs else "")))
+        run.cov["replayed_transforms"] = run.cov.get("replayed_transforms", 0) + stats["replays"]
+        # 3b. binding T: observed write maps judged by the contract
+        results, rejects, lines = vlib.validate_trace("TraceImageXform", "TraceImageXform.cfg",
+                                                      os.path.join(out, "c10.ndjson"), shards=8, heap="3g")
+        for res in results:
+            run.add_tlc("TraceImageXform" + tag, res)
+        run.cov["traces_validated_against_impl"] = run.cov.get("traces_validated_against_impl", 0) + len(lines)
+        run.cov["configurations"] = len(r.printed)
+        run.cov["exhaustive"] = False
+        run.sample(json.loads(lines[len(lines) // 3]))
+        for n, pr in rejects[:10]:
+            ev = json.loads(lines[n])
+            run.violation({"finding_key": None, "event": ev},
+                          "TransformImageColor %s->%s parallelism %d wrote %s for cfg %s (GOMAXPROCS %s)" % (
+                              ev["src"], ev["dst"], ev["par"], json.dumps(ev["observed"])[:200], json.dumps(ev["cfg"]), procs or "default"))
     run.cov["bounds"] = {"sizes": "0..3 x 0..3", "origins": "(0,0),(-2,-2),(3,1) for source and destination independently",
-                         "dst_extra": "0/1 each axis", "parent_margins": 4, "parallelism": "1..5 structural + {1,2,3,7,16,rows+5}",
+                         "dst_extra": "0/1 each axis", "parent_margins": 4, "parallelism": "1..5 structural + {1,2,3,7,16,rows+5}", "gomaxprocs": [p or "default" for _, p in passes],
                          "type_combinations_per_configuration": 12 if tier == "quick" else 200}
     run.assumptions += ["subsampled YCbCr sources are not placed at negative origins (image.YCbCr itself mis-indexes there)",
                         "expected pixel = destination type's Set of the package's per-colour function applied to src.At(p)"]
